@@ -1722,7 +1722,7 @@ fn main() {
             jobs.push((4, rng.next() >> 1));
         }
     }
-    let nthreads = if args.thorough() { std::thread::available_parallelism().map(|n| n.get()).unwrap_or(4).min(16) } else { 2 };
+    let nthreads = if args.thorough() { std::thread::available_parallelism().map(|n| n.get()).unwrap_or(4).min(16) } else { 4 };
     let chunks: Vec<Vec<(u8, u64)>> = (0..nthreads).map(|t| jobs.iter().skip(t).step_by(nthreads).copied().collect()).collect();
     let driver_path = args.driver.clone();
     let parts: Vec<Report> = std::thread::scope(|sc| {
